@@ -64,3 +64,8 @@ def val2(k):
 @m.memento_function(version="1")
 def val_default_cluster(k):
     return rt.produce("val_default_cluster", k)
+
+
+@m.memento_function(cluster="c", version="1")
+def bat(p, k):
+    return rt.produce("bat", k)
